@@ -11,9 +11,14 @@ VERIF = Path(__file__).resolve().parent.parent
 BASELINE_CMD = "cd /repo && /venv/bin/python -m pytest -ra -q -p no:cacheprovider --timeout=900 --continue-on-collection-errors --junitxml=/tmp/groupby_lib_baseline.junit.xml"
 
 COMMON_NOTE = ("Trusted base: Lean 4.33 kernel (axioms audited per theorem on every run: propext, Classical.choice, Quot.sound only; "
-               "no sorry/admit/native_decide/bv_decide/own axioms), tools/translate.py, the Python correspondence harness and the Lean "
-               "compiler for the executable driver. Modelled rather than verified: numba loops and pandas/numpy/arrow glue (hand model "
-               "tied by differential execution), IEEE rounding (exact arithmetic on representable inputs), thread scheduling (any "
+               "no sorry/admit/native_decide/bv_decide/own axioms), tools/translate.py + tools/translate_loops.py (Python ast -> Lean, "
+               "restricted subset, fail closed), the Python correspondence harness and the Lean compiler for the executable driver. "
+               "The numba loop kernels _group_by_reduce, reduce_array_pair, _find_nth, _find_first_or_last_n, _cumulative_reduce, "
+               "_build_group_sorted_indexer_numba, _rolling_sum_or_mean_1d, _rolling_shift_or_diff_1d, _ema_grouped, _ema_grouped_timed "
+               "are translated from the source on every run (Generated/Loops.lean) and proved equal to the hand-written models "
+               "(LoopBridge/*.lean). Modelled rather than verified: the remaining loops (rolling max/min, monotonic factorization, "
+               "nanops) and the pandas/numpy/arrow glue (hand model tied by differential execution), IEEE rounding (exact arithmetic on "
+               "representable inputs; division / exp are uninterpreted functions in the translated loops), thread scheduling (any "
                "completion permutation). ")
 
 CHECKS = {
@@ -22,9 +27,9 @@ CHECKS = {
               "= single pass over the concatenation (partials form a monoid with the empty partial as identity); negative codes ignored; "
               "max/min/sum characterised as the textbook operations. Reducers are re-translated from the source on every run and proved "
               "equal to the model (Bridge). The loops, dispatch and masks are tied by exhaustive small-scope differential execution of "
-              "groupby_lib.groupby.numba.group_* against the compiled model and the specification."),
+              "groupby_lib.groupby.numba.group_* against the compiled model and the specification." " Source level (new): Generated.Loops.group_by_reduce / reduce_array_pair are regenerated from numba.py on every run by tools/translate_loops.py; LoopBridge/Reduce proves them equal to groupByReduce (array order and through an indexer with wrap-around of negative positions, with the bounds error flag) and mergePair; source_kernel_eq_def / source_kernel_indexer_eq_def / source_merge_eq_mergePair state the per-group definition directly about the translated source."),
         note="source_loop_shape: the AST of _group_by_reduce is matched on every run against the loop shape the model stands for (own-slot update, row order, zero counts, negative-key guard). Assumes codes < ngroups, in-range positions, small-integer float values, no int64 partial sum equal to the int64 minimum; prange race-freedom not modelled.",
-        technique="Lean 4 proof (fold/merge homomorphism by induction) + source-to-Lean translation of the scalar reducers + exhaustive small-scope correspondence",
+        technique="Lean 4 proof (fold/merge homomorphism by induction) + source-to-Lean translation of the scalar reducers AND of the reduction / merge loops with proved bridge to the model + exhaustive small-scope correspondence",
         design="§7 C04",
     ),
 }
@@ -54,9 +59,9 @@ CHECKS["C02"] = dict(
           "the end of the longest null-free non-decreasing prefix, one code per prefix row, labels strictly increasing, label at a row's code has the row's "
           "key; monotonic_codes_eq_iff; monotonic_null_first - for any comparison functions that agree with the key order on non-null elements. Several keys, "
           "end to end: factorize2d_codes_eq_iff - through the per-key factorizations, the mixed-radix combination and the final factorization two rows get "
-          "the same code exactly when both hold a null in some key, or neither does and they agree in every key column."),
+          "the same code exactly when both hold a null in some key, or neither does and they agree in every key column." " Source level (new): the counting sort _build_group_sorted_indexer_numba is translated from core.py on every run and proved correct (LoopBridge/CountingSort, source_counting_sort): with the true group sizes the segment of every group lists exactly the ascending positions of its rows, for any chunking of the codes and any mask."),
     note="pd.factorize / get_indexer / drop_duplicates are assumed (exercised, not proved); the chunk-pointer route is modelled (C03 chunk_route_eq_global) and tied by correspondence.",
-    technique="Lean 4 proof (list induction; mixed-radix injectivity) + relations evaluated on the implementation's output for every route + model correspondence",
+    technique="Lean 4 proof (list induction; mixed-radix injectivity; counting-sort correctness of the translated source loop) + relations evaluated on the implementation's output for every route + model correspondence",
     design="§7 C02",
 )
 
@@ -65,9 +70,9 @@ CHECKS["C15"] = dict(
           "each group from the start / from the end (-1 when too short, the assert never fires), `_find_first_or_last_n` returns the first / last n "
           "rows in ascending position; selected rows carry the group's code (never a null key). The obligations seen_width_* tie w to the dtype the "
           "current source allocates (extracted by the translator): w = 64, so the bound holds for any array. Correspondence: kernels and public "
-          "head/tail/nth(keep_input_index=True) incl. groups of 32766..70000 rows, arbitrary index, multi-column values."),
+          "head/tail/nth(keep_input_index=True) incl. groups of 32766..70000 rows, arbitrary index, multi-column values." " Source level (new): _find_nth and _find_first_or_last_n are translated from numba.py on every run and proved equal to the models (LoopBridge/FindNth, FirstLast); source_nth_eq_spec / source_head_eq_spec / source_tail_eq_spec state the specification (and that the assert never fires) about the translated source, masks included."),
     note="_get_row_selection (positional take, index restoration, ordering) is tied by correspondence only; row identity at the public level through unique values.",
-    technique="Lean 4 proof (per-group fold + wrapping-counter invariant, width extracted from source) + boundary-size correspondence",
+    technique="Lean 4 proof (per-group fold + wrapping-counter invariant) + source-to-Lean translation of both selection loops with proved bridge + boundary-size correspondence",
     design="§7 C15",
 )
 
@@ -77,9 +82,9 @@ CHECKS["C08"] = dict(
           "and including the row); null-key rows get a marker independent of all other rows; rows of other groups / unselected rows never enter; the "
           "last cumulative value of a group equals the group reduction; a null makes the non-skipping float sum null from there on. Reducers come from "
           "the source via the translator+Bridge; the loop is tied by correspondence on numba.cum* and GroupBy.cum* (all dtype classes, ints beyond 2^53, "
-          "datetime/timedelta with NaT, exact dtype checks)."),
+          "datetime/timedelta with NaT, exact dtype checks)." " Source level (new): _cumulative_reduce is translated from numba.py on every run and proved equal to cumGo (LoopBridge/Cumulative: the read-back target[last_seen] including target[-1] on a group's first row, the uint32 count array below 2^32 rows, any chunking of the values); source_loop_eq_spec states the prefix-reduction specification about the translated source."),
     note="source_loop_shape: the AST of _cumulative_reduce is matched on every run against the loop shape the model cumGo stands for (running row counter, read of the previous output position of the group, masked pass-through). The read-back of the running value from the output array is modelled as the group's running partial (each position is written once, in its own iteration); cummin/cummax with skip_na=False are compared with the model only (the property does not define them).",
-    technique="Lean 4 proof (structural induction over the row list, any starting state) + reducer translation + differential correspondence",
+    technique="Lean 4 proof (structural induction over the row list, any starting state) + source-to-Lean translation of the reducers and of the cumulative loop with proved bridge + differential correspondence",
     design="§7 C08",
 )
 
@@ -93,9 +98,9 @@ CHECKS["C09"] = dict(
           "which by window_cover / buf_mem_iff holds exactly the window's values; minOrMax_isExt characterises the scan) gives rolling_max_eq_window "
           "and rolling_min_eq_window for every history, window and min_periods >= 1. Shift / diff: rolling_shift_diff_eq_window (the value `window` "
           "group-rows earlier / the difference to it, null until then). Correspondence on numba.rolling_* and GroupBy.rolling_*/shift/diff, both "
-          "layouts, temporal exactness and time unit, boundary windows 32767/32768/40000."),
+          "layouts, temporal exactness and time unit, boundary windows 32767/32768/40000." " Source level (new): _rolling_sum_or_mean_1d and _rolling_shift_or_diff_1d are translated from numba.py on every run and proved equal to the ring-buffer models (LoopBridge/Rolling; the mean's division is an uninterpreted function); source_rolling_sum_mean_eq_window / source_rolling_shift_diff_eq_window state the window specification about the translated source. The extremum kernel _rolling_max_or_min_1d is not yet translated (hand model + correspondence incl. windows 17/130/200 over many windows of rows)."),
     note="index_by_groups=True delegates to pandas rolling (assumed); counters are unbounded in the model (source widths extracted and checked >= 16 bits, boundary windows exercised); the shift / diff theorem is stated for the float view (null = NaN), temporal values are compared by the correspondence run.",
-    technique="Lean 4 proof (ring-buffer invariants for the sum and the extremum kernel by induction over the history + per-group lift) + differential correspondence",
+    technique="Lean 4 proof (ring-buffer invariants for the sum and the extremum kernel by induction over the history + per-group lift) + source-to-Lean translation of the sum/mean and shift/diff loops with proved bridge + differential correspondence",
     design="§7 C09",
 )
 
@@ -106,9 +111,9 @@ CHECKS["C10"] = dict(
           "(ema_closed_form); invalid rows repeat the previous output, the output is null until the first valid observation; the time-weighted kernel "
           "satisfies the same closed form with weight decay(t_i - t_j) for ANY multiplicative decay (ema_timed_closed_form), of which 2^(-dt/halflife) "
           "is an instance. Correspondence: ema / ema_grouped / GroupBy.ema against the exact rational model (untimed, rational alpha) and a float "
-          "closed-form oracle (halflife, timed; units s/ms/us/ns, pre-1970, leading nulls, masks, null keys, both layouts)."),
+          "closed-form oracle (halflife, timed; units s/ms/us/ns, pre-1970, leading nulls, masks, null keys, both layouts)." " Source level (new): _ema_grouped and _ema_grouped_timed are translated from emas.py on every run over exact rationals with NaN (FVal) and proved equal to the models (LoopBridge/Ema; exp / ln 2 uninterpreted); source_ema_closed_form states the weighted-mean closed form about the translated source."),
     note="PARTIAL for real-valued halflives: alpha = 1 - 2^(-1/h) and decay = 2^(-dt/h) involve exp/log, which are outside the model; the conversion is checked by comparing the entry points with the float closed form to 1e-9 relative. Mathlib single modules (FieldSimp, Ring, Positivity, Order.Field.Rat, Data.List.Basic) are imported by this proof file only.",
-    technique="Lean 4 proof over Rat (state invariant = decayed weighted sums; closed form; abstract multiplicative decay) + differential correspondence",
+    technique="Lean 4 proof over Rat (state invariant = decayed weighted sums; closed form; abstract multiplicative decay) + source-to-Lean translation of both grouped EMA loops with proved bridge + differential correspondence",
     design="§7 C10",
 )
 
